@@ -76,16 +76,29 @@ func (mp MultiPolygon) Polygons() []Polygon {
 // actually inside the outer rings.
 func (mp MultiPolygon) Centroid() Point {
 	var A, xA, yA float64
+	// The sums are taken about a vertex of the shape rather than about the
+	// coordinate origin: far from the origin the products of absolute
+	// coordinates cancel catastrophically.
+	var o Point
+findOrigin:
+	for _, p := range mp {
+		for _, r := range p {
+			if len(r) > 0 {
+				o = r[0]
+				break findOrigin
+			}
+		}
+	}
 	for _, p := range mp {
 		b := p.ringBounds()
 		for i, r := range p {
 			a := area(r, i, p, b)
 			cx, cy := 0., 0.
 			for i := 0; i < len(r)-1; i++ {
-				cx += (r[i].X + r[i+1].X) *
-					(r[i].X*r[i+1].Y - r[i+1].X*r[i].Y)
-				cy += (r[i].Y + r[i+1].Y) *
-					(r[i].X*r[i+1].Y - r[i+1].X*r[i].Y)
+				x0, y0 := r[i].X-o.X, r[i].Y-o.Y
+				x1, y1 := r[i+1].X-o.X, r[i+1].Y-o.Y
+				cx += (x0 + x1) * (x0*y1 - x1*y0)
+				cy += (y0 + y1) * (x0*y1 - x1*y0)
 			}
 			// The sums above carry the sign of the ring's winding direction,
 			// so the ring centroid needs the signed area; a (negative for
@@ -98,7 +111,7 @@ func (mp MultiPolygon) Centroid() Point {
 			yA += cy * a
 		}
 	}
-	return Point{X: xA / A, Y: yA / A}
+	return Point{X: xA/A + o.X, Y: yA/A + o.Y}
 }
 
 // Len returns the number of points in the receiver.
